@@ -69,6 +69,11 @@ func (fr *Frame) call(b *ssa.BasicBlock, idx int, ins ssa.Instruction, cc *ssa.C
 	setRes := func(v *Val) {
 		if res != nil {
 			fr.vals[res] = v
+			if v != nil {
+				for _, x := range splitResults(v, 0) {
+					fr.allocated(x, st)
+				}
+			}
 		}
 	}
 	var rt types.Type
@@ -86,6 +91,10 @@ func (fr *Frame) call(b *ssa.BasicBlock, idx int, ins ssa.Instruction, cc *ssa.C
 	}
 	callee := cc.StaticCallee()
 	fr.callSiteSpecs(b, idx, ins, cc, res, st, reach)
+	if mc, ok := fr.isIteratorCall(cc); ok {
+		fr.iterCall(b, idx, ins, cc, mc, res, st, reach)
+		return
+	}
 	if cc.IsInvoke() {
 		// interface method: contract by "<iface type>.<method>" if any
 		recv := fr.val(cc.Value)
@@ -466,9 +475,18 @@ func (fr *Frame) applyContract(b *ssa.BasicBlock, idx int, ins ssa.Instruction, 
 	if fr.dry {
 		return
 	}
+	for _, x := range results {
+		fr.allocated(x, st)
+	}
 	envPost := fr.contractEnv(c, callee, args, results, st, pre)
+	envPost.atCallSite = true
 	for _, en := range c.Ensures {
+		skip := false
+		envPost.skip = &skip
 		f := envPost.eval(en.Expr).S
+		if skip {
+			continue // the clause talks about the callee's internal calls: nothing is assumed from it here
+		}
 		u.assert(implies(reach, f))
 	}
 }
@@ -1184,6 +1202,9 @@ func (fr *Frame) callSiteSpecs(b *ssa.BasicBlock, idx int, ins ssa.Instruction, 
 		}
 		cs.Hit = true
 		env := fr.localEnv(b, idx, st)
+		for _, a := range cc.Args {
+			env.callArgs = append(env.callArgs, fr.val(a))
+		}
 		for k, cl := range cs.Before {
 			f := env.eval(cl.Expr).S
 			oname := fmt.Sprintf("%s#at:%s:%d:%s", u.Name, name, n, clauseID(cl, k))
